@@ -176,6 +176,24 @@ impl Eut {
             Eut::V5(e) => e.send(spec),
         }
     }
+    pub fn stream_start(&self, qos: u8, topic: String, declared: u32, pid: Option<u16>) -> (Option<BoxFut<SendRes>>, Result<usize, crate::bed::v5::SendErr>) {
+        match self {
+            Eut::V3(e) => e.stream_start(qos, topic, declared, pid),
+            Eut::V5(e) => e.stream_start(qos, topic, declared, pid),
+        }
+    }
+    pub fn stream_chunk(&self, idx: usize, chunk: Vec<u8>) -> BoxFut<Result<(), crate::bed::v5::SendErr>> {
+        match self {
+            Eut::V3(e) => e.stream_chunk(idx, chunk),
+            Eut::V5(e) => e.stream_chunk(idx, chunk),
+        }
+    }
+    pub fn stream_drop(&self, idx: usize) {
+        match self {
+            Eut::V3(e) => e.stream_drop(idx),
+            Eut::V5(e) => e.stream_drop(idx),
+        }
+    }
     pub fn release(&self, idx: usize) -> BoxFut<SendRes> {
         match self {
             Eut::V3(e) => e.release(idx),
